@@ -1070,6 +1070,12 @@ def opt4(ctx: Ctx) -> None:
     for q in ("extract", "extract_outermost"):
         fn = mod.fn(q)
         body = [s for s in fn.body if not (isinstance(s, ast.Expr) and isinstance(s.value, ast.Constant))]
+        # statements before the `with` that neither read the options nor extract anything are not "work" in the sense of this rule
+        sensitive = ("current_options", "extract_iter", "extract_child", "fill_context", "unwrap_stackitem", "elaborate_frame", "contexts_active_in_frame")
+        while len(body) > 1 and not isinstance(body[0], ast.With) and isinstance(body[0], (ast.Expr, ast.Assign, ast.AnnAssign)) \
+                and not any(w in norm(body[0]) for w in sensitive):
+            ctx.R.note(f"OPT-4: {q}: `{norm(body[0])[:60]}` before the push does not involve the options")
+            body = body[1:]
         if len(body) == 1 and isinstance(body[0], ast.With) and isinstance(body[0].items[0].context_expr, ast.Call) \
                 and norm(body[0].items[0].context_expr.func) == "current_options.push":
             kws = {k.arg: norm(k.value) for k in body[0].items[0].context_expr.keywords}
